@@ -2,17 +2,51 @@
 from ..rules import handlers, typed, iface, trn, sC13
 
 ID = 'C13'
-TECHNIQUE = 'resolved interface analysis: handler-name resolution against builtin tables, typed helper call vs C prototype (utility catalogue + CPython headers), finite length-domain dataflow for argument lists, role table for injected integer parameters'
+TECHNIQUE = ('resolved interface analysis: handler-name resolution against builtin tables, typed helper call vs C prototype (utility catalogue + CPython headers), '
+             'finite length-domain dataflow for argument lists, role table for injected integer parameters; '
+             'USCORE: the separator-stripping loops of the float() parsers are extracted as finite automata (own C statement interpreter) and the product with the '
+             'strtod grammar and CPython\'s separator rule is explored completely; NONEARG: path enumeration of the injection helper per call site with the literal '
+             'table values (whitelisted evaluator), writer/reader agreement with the consumer\'s presence test and C conditional template')
 DECIDES = ('V1h: every _handle_* optimisation handler names an existing builtin function / method of a builtin type; '
            'I3: at every typed helper call site the number of arguments passed equals the C arity and the declared argument/return categories and exception value agree with the C prototype; '
            'I4: every BuiltinFunction/BuiltinMethod table row agrees with the C prototype of its C function; '
            'I5/I6: helper calls emitted as text have the declared arity and no mutually swapped name-carrying arguments; '
            'HARG: every args[k] read in a handler is admitted by its length guards (no IndexError in the compiler); '
-           'TRN2: integer parameters of optimised str/bytes methods are injected according to their documented role (None is the default only for slice bounds), TRN2b: injection helpers append a default only when the argument is absent.')
-NOT_DECIDED = 'that each C helper agrees with the builtin it replaces on every argument value (known findings: slice bounds beyond Py_ssize_t raise OverflowError, ord("") raises ValueError).'
+           'TRN2: integer parameters of optimised str/bytes methods are injected according to their documented role (None is the default only for slice bounds), TRN2b: injection helpers append a default only when the argument is absent; '
+           'USCORE: no text accepted by a `_`-stripping copy loop of the optimised float() (and complete for PyOS_string_to_double after stripping) has an underscore next to '
+           '`_`, `.`, `e`, `E` or at the end — exactly the texts for which CPython raises ValueError (the exponent-sign row is FINDING_1, pending); '
+           'NONEARG: for every call site of an argument-injection helper: where a literal None selects the default a run-time None does too, the C value stored for the '
+           'run-time None equals the statically injected default, survives the consumer\'s own presence test (truthiness vs `is not None`), and the consumer\'s C '
+           'conditional selects it exactly when the argument is None.')
+NOT_DECIDED = ('that each C helper agrees with the builtin it replaces on every argument value (known findings: slice bounds beyond Py_ssize_t raise OverflowError, '
+               'ord("") raises ValueError).  USCORE models the copy loop only: the callers\' whitespace stripping, the inf/nan pre-filter (assumed to reject a text '
+               'whose first character after a sign is `_`), buffer sizes and loop bounds (see FINDING_2) and strtod itself are not decided.  NONEARG decides the '
+               'special_none_cvalue channel of the _inject_* helpers, not the conversion function that handles non-None values.')
+ASSUMPTIONS = ['PyOS_string_to_double consumes exactly  [+-]? (D+ (. D*)? | . D+) ([eE] [+-]? D+)?  of an ASCII text without underscores (CPython pystrtod.c)',
+               'float() of CPython accepts an underscore only between two digits (_Py_string_to_number_with_underscores)',
+               'the callers of the copy loops reject a text whose first character after an optional sign is neither a digit nor `.` (the *_inf_nan pre-filters)']
+MUTATIONS = [   # (file, single edit on a scratch copy, rule that reported it)
+    ('Cython/Utility/Optimize.c', "seed C13b: bytes copy: is_punctuation without (chr == 'e') | (chr == 'E')", 'C13-USCORE'),
+    ('Cython/Utility/Optimize.c', "bytes copy: is_punctuation without (chr == '.')", 'C13-USCORE'),
+    ('Cython/Utility/Optimize.c', "bytes copy: final `parse_error_found |= last_was_punctuation;` removed ('1_' accepted)", 'C13-USCORE'),
+    ('Cython/Utility/Optimize.c', "bytes copy: last_was_punctuation = (chr == '_') instead of is_punctuation", 'C13-USCORE'),
+    ('Cython/Utility/Optimize.c', "unicode copy: final `if (last_was_punctuation) goto parse_failure;` removed", 'C13-USCORE'),
+    ('Cython/Utility/Optimize.c', "bytes copy: parse_error_found = ... instead of |= (flag no longer sticky)", 'C13-USCORE'),
+    ('Cython/Compiler/Optimize.py', "seed C13a: _inject_int_default_argument normalises decimal defaults to int and stores the int in special_none_cvalue", 'C13-NONEARG'),
+    ('Cython/Compiler/Optimize.py', "_inject_int_default_argument: arg.special_none_cvalue = '0' (constant) -> PY_SSIZE_T_MAX call sites disagree", 'C13-NONEARG'),
+    ('Cython/Compiler/Optimize.py', "_inject_int_default_argument: `if none_is_default and isinstance(...)` -> `if not none_is_default and ...`", 'C13-NONEARG'),
+    ('Cython/Compiler/Optimize.py', "_inject_int_default_argument: the store statement replaced by pass", 'ANALYSIS-ERROR (channel vanished, exit 2)'),
+    ('Cython/Compiler/PyrexTypes.py', "_assign_from_py_code: (source_code, special_none_cvalue, convert_call) -> (source_code, convert_call, special_none_cvalue)", 'C13-NONEARG'),
+    ('Cython/Compiler/PyrexTypes.py', "_assign_from_py_code: template `(__Pyx_Py_IsNone(%s) ? ...` -> `(!__Pyx_Py_IsNone(%s) ? ...`", 'C13-NONEARG'),
+    ('behaviour-preserving (all silent)',
+     "bytes copy rewritten with renamed locals, `||`, early `return NULL` instead of the sticky flag and `if (chr != '_') buffer++`; unicode copy with a "
+     "three-valued state variable instead of two gotos; call sites passing the int 0 instead of \"0\" (helper applies str()); consumer testing "
+     "`special_none_cvalue is not None`; helper else-branch with early return, renamed local and '%s' % (default_value,)", 'silent'),
+]
 
 
 def run(ctx):
+    # sC13.rule_uscore(ctx, pending=True) checks the constructs of FINDING_1 (float("1e+_5"), the non-ASCII copy loop)     # pending finding
     return [handlers.rule_V1h(ctx), typed.rule_I3(ctx), typed.rule_I4(ctx), iface.rule_I5(ctx), iface.rule_I6(ctx),
             handlers.rule_arg_guards(ctx), trn.rule_TRN2(ctx), trn.rule_TRN2b(ctx),
             sC13.rule_uscore(ctx), sC13.rule_nonearg(ctx)]
